@@ -36,6 +36,11 @@ func main() {
 	selftest := flag.Bool("selftest", false, "run the mutation witnesses (two-way validation of the rules)")
 	warm := flag.Bool("warm", false, "load the repository once (warms the build cache)")
 	list := flag.Bool("list", false, "list registered properties")
+	mutate := flag.Bool("mutate", false, "systematic mutation sweep of the property's anchor functions (report in <verif>/mutation/)")
+	mutWorker := flag.String("mutant-worker", "", "internal: evaluate the mutants listed in this file")
+	mutOut := flag.String("mutant-out", "", "internal: where the worker writes its results")
+	par := flag.Int("par", 0, "mutation sweep: parallel workers (default NumCPU/2)")
+	limit := flag.Int("limit", 0, "mutation sweep: at most this many mutants (deterministic thinning)")
 	flag.Parse()
 
 	if *verif == "" {
@@ -67,6 +72,18 @@ func main() {
 		p := guardLoad(*repo, "")
 		fmt.Printf("loaded %d packages, %d files, %d functions\n", len(p.All), p.NFiles, p.NFuncs)
 		return
+	}
+	if *mutWorker != "" {
+		os.Exit(runMutantWorker(*mutWorker, *mutOut, *prop, *repo))
+	}
+	if *mutate {
+		rc := 0
+		for _, id := range strings.Split(*prop, ",") {
+			if r := runMutationSweep(*repo, *verif, id, *par, *limit); r > rc {
+				rc = r
+			}
+		}
+		os.Exit(rc)
 	}
 	if *replay != "" {
 		os.Exit(doReplay(*replay, *repo, *verif, *tier, seed))
